@@ -7,9 +7,9 @@ From NV Require Import Rec.Lang Rec.Spec Rec.Mech Rec.MechInv.
 
 (* let s0 = {a | default = 1, b = a + 1} in let s1 = {a = 5} in let s2 = s0 & s1 in ... *)
 Definition h_override : history :=
-  [ SLit [(0%N, {| fprio := PBot; fbody := Some (Num 1) ; fdyn := false; fctrs := [] |});
-          (1%N, {| fprio := PNeut; fbody := Some (Add (Var 0%N) (Num 1)) ; fdyn := false; fctrs := [] |})];
-    SLit [(0%N, {| fprio := PNeut; fbody := Some (Num 5) ; fdyn := false; fctrs := [] |})];
+  [ SLit [(0%N, {| fprio := PBot; fbody := Some (STm (Num 1)); fdyn := false; fctrs := [] |});
+          (1%N, {| fprio := PNeut; fbody := Some (STm (Add (Var 0%N) (Num 1))); fdyn := false; fctrs := [] |})];
+    SLit [(0%N, {| fprio := PNeut; fbody := Some (STm (Num 5)); fdyn := false; fctrs := [] |})];
     SMerge 0 1 ].
 
 (* what the specification says about that history: s0.b = 2, s2.b = 6 *)
@@ -33,9 +33,9 @@ Definition spec_field_of (h : history) (i : nat) (k : N) : outcome :=
   end.
 
 (* ---- revert = clone: the merged record gets the operand's thunk with its cached environment *)
-Definition cfg_share_assert : cfg := {| c_an := vars; c_unknown := false; c_revert := RevShare; c_patch := PAssert; c_wrap_dyn := false |}.
-Definition cfg_share_skip : cfg := {| c_an := vars; c_unknown := false; c_revert := RevShare; c_patch := PSkip; c_wrap_dyn := false |}.
-Definition cfg_share_overwrite : cfg := {| c_an := vars; c_unknown := false; c_revert := RevShare; c_patch := POverwrite; c_wrap_dyn := false |}.
+Definition cfg_share_assert : cfg := {| c_an := svars; c_unknown := false; c_revert := RevShare; c_patch := PAssert; c_wrap_dyn := false |}.
+Definition cfg_share_skip : cfg := {| c_an := svars; c_unknown := false; c_revert := RevShare; c_patch := PSkip; c_wrap_dyn := false |}.
+Definition cfg_share_overwrite : cfg := {| c_an := svars; c_unknown := false; c_revert := RevShare; c_patch := POverwrite; c_wrap_dyn := false |}.
 
 (* with the assertion of init_cached in place the evaluation of the merged record panics *)
 Theorem revert_keeps_cache_panics :
@@ -57,7 +57,7 @@ Theorem revert_keeps_cache_overwrite_refuted :
 Proof. exists h_override, 0, 1%N. split; vm_compute; reflexivity. Qed.
 
 (* ---- revert resets the operand's own thunk: the operand is no longer usable with its own values *)
-Definition cfg_inplace : cfg := {| c_an := vars; c_unknown := false; c_revert := RevInPlace; c_patch := PAssert; c_wrap_dyn := false |}.
+Definition cfg_inplace : cfg := {| c_an := svars; c_unknown := false; c_revert := RevInPlace; c_patch := PAssert; c_wrap_dyn := false |}.
 
 Theorem inplace_revert_refuted :
   exists h i k, field_of cfg_inplace h i k = Ok 6 /\ spec_field_of h i k = Ok 2
@@ -67,19 +67,22 @@ Proof. exists h_override, 0, 1%N. repeat split; vm_compute; reflexivity. Qed.
 (* ---- an analysis that skips a syntactic position (here: the else-branch of a conditional) *)
 Fixpoint vars_skip_else (t : tm) : list N :=
   match t with
-  | Num _ => []
+  | Num _ | Const _ => []
   | Var x => [x]
   | Add a b | Mul a b => vars_skip_else a ++ vars_skip_else b
   | IfLe a b t e => vars_skip_else a ++ vars_skip_else b ++ vars_skip_else t
   end.
 
+Definition svars_skip_else (s : src) : list N :=
+  match s with STm t => vars_skip_else t | SSub _ => svars s end.
+
 Definition cfg_incomplete : cfg :=
-  {| c_an := vars_skip_else; c_unknown := false; c_revert := RevFresh; c_patch := PAssert; c_wrap_dyn := false |}.
+  {| c_an := svars_skip_else; c_unknown := false; c_revert := RevFresh; c_patch := PAssert; c_wrap_dyn := false |}.
 
 (* { a = 1, b = if 1 <= 0 then 0 else a } : b gets a standard thunk, a is unbound in it *)
 Definition h_incomplete : history :=
-  [ SLit [(0%N, {| fprio := PNeut; fbody := Some (Num 1) ; fdyn := false; fctrs := [] |});
-          (1%N, {| fprio := PNeut; fbody := Some (IfLe (Num 1) (Num 0) (Num 0) (Var 0%N)) ; fdyn := false; fctrs := [] |})] ].
+  [ SLit [(0%N, {| fprio := PNeut; fbody := Some (STm (Num 1)); fdyn := false; fctrs := [] |});
+          (1%N, {| fprio := PNeut; fbody := Some (STm (IfLe (Num 1) (Num 0) (Num 0) (Var 0%N))); fdyn := false; fctrs := [] |})] ].
 
 Theorem deps_incomplete_refuted :
   exists h i k, field_of cfg_incomplete h i k = Err UnboundId /\ spec_field_of h i k = Ok 1.
@@ -89,10 +92,10 @@ Proof. exists h_incomplete, 0, 1%N. split; vm_compute; reflexivity. Qed.
    another dependency, but the filter of init_cached leaves the missed one out.
    { a = 1, c = 0, b = if c <= 0 then c else a } *)
 Definition h_incomplete2 : history :=
-  [ SLit [(0%N, {| fprio := PNeut; fbody := Some (Num 1) ; fdyn := false; fctrs := [] |});
-          (2%N, {| fprio := PBot; fbody := Some (Num 0) ; fdyn := false; fctrs := [] |});
-          (1%N, {| fprio := PNeut; fbody := Some (IfLe (Var 2%N) (Num 0) (Var 2%N) (Var 0%N)) ; fdyn := false; fctrs := [] |})];
-    SLit [(2%N, {| fprio := PNeut; fbody := Some (Num 7) ; fdyn := false; fctrs := [] |})];
+  [ SLit [(0%N, {| fprio := PNeut; fbody := Some (STm (Num 1)); fdyn := false; fctrs := [] |});
+          (2%N, {| fprio := PBot; fbody := Some (STm (Num 0)); fdyn := false; fctrs := [] |});
+          (1%N, {| fprio := PNeut; fbody := Some (STm (IfLe (Var 2%N) (Num 0) (Var 2%N) (Var 0%N))); fdyn := false; fctrs := [] |})];
+    SLit [(2%N, {| fprio := PNeut; fbody := Some (STm (Num 7)); fdyn := false; fctrs := [] |})];
     SMerge 0 1 ].
 
 Theorem deps_incomplete_after_override_refuted :
@@ -110,9 +113,9 @@ Proof. repeat split; vm_compute; reflexivity. Qed.
    which merge does not revert.   let n = "y" in {b | default = 10, "%{n}" = b + 1} & {b = 5}
    (b = 0, y = 1): y = 11 in the merge result instead of 6; the real interpreter prints 11 too *)
 Definition h_dynamic : history :=
-  [ SLit [(0%N, {| fprio := PBot; fbody := Some (Num 10); fdyn := false; fctrs := [] |});
-          (1%N, {| fprio := PNeut; fbody := Some (Add (Var 0%N) (Num 1)); fdyn := true; fctrs := [] |})];
-    SLit [(0%N, {| fprio := PNeut; fbody := Some (Num 5); fdyn := false; fctrs := [] |})];
+  [ SLit [(0%N, {| fprio := PBot; fbody := Some (STm (Num 10)); fdyn := false; fctrs := [] |});
+          (1%N, {| fprio := PNeut; fbody := Some (STm (Add (Var 0%N) (Num 1))); fdyn := true; fctrs := [] |})];
+    SLit [(0%N, {| fprio := PNeut; fbody := Some (STm (Num 5)); fdyn := false; fctrs := [] |})];
     SMerge 0 1 ].
 
 Theorem dynamic_field_indirection_refuted :
@@ -129,9 +132,9 @@ Qed.
    { lo | default = 0, x | from_predicate (fun v => v >= lo) = 3 } & { lo = 5 }
    x = 3 in the operand, a contract violation in the merge result *)
 Definition h_contract : history :=
-  [ SLit [(0%N, {| fprio := PBot; fbody := Some (Num 0); fdyn := false; fctrs := [] |});
-          (1%N, {| fprio := PNeut; fbody := Some (Num 3); fdyn := false; fctrs := [(CGe, Var 0%N)] |})];
-    SLit [(0%N, {| fprio := PNeut; fbody := Some (Num 5); fdyn := false; fctrs := [] |})];
+  [ SLit [(0%N, {| fprio := PBot; fbody := Some (STm (Num 0)); fdyn := false; fctrs := [] |});
+          (1%N, {| fprio := PNeut; fbody := Some (STm (Num 3)); fdyn := false; fctrs := [(CGe, Var 0%N)] |})];
+    SLit [(0%N, {| fprio := PNeut; fbody := Some (STm (Num 5)); fdyn := false; fctrs := [] |})];
     SMerge 0 1 ].
 
 Example contract_on_field_recomputed :
